@@ -586,6 +586,33 @@ class C11(object):
         r.oracle_fail = self.table_agrees(got, ref, d.get_base(), False)
         if not r.oracle_fail and abs(sum(gen.lin_of(v, d.get_base()) for v in d.pmf) - 1) > 1e-9:
             r.oracle_fail = 'not normalised'
+        # correspondence with the model's constructor (Core/Examples.lean); outcomes become lists of naturals
+        margs, off = None, 0
+        if w in ('giant_bit', 'n_mod_m', 'iid_sum'):
+            margs = [w, case['n'], case.get('k', case.get('m'))]
+        elif w == 'summed_dice' and case['b'] >= 0:
+            margs = [w, case['a'], case['b']]
+        elif w == 'gates':
+            margs = [case['gate'].lower(), 2 if case['gate'] == 'Xor' else case['k']]
+        elif w in ('binomial', 'bernoulli'):
+            margs = ['binomial', case['n'] if w == 'binomial' else 1, case['p']]
+        elif w == 'hypergeometric':
+            margs = [w, case['N'], case['K'], case['n']]
+        elif w == 'uniform_ab':
+            lo, hi = (0, case['a']) if case['b'] is None else (case['a'], case['b'])
+            margs, off = ['uniform_range', hi - lo], lo
+        if margs is not None:
+            mo = drv.call('example', margs)
+            want = {tuple(o): unq(v) for o, v in mo if unq(v) != 0}
+
+            def key(o):
+                if isinstance(o, str):
+                    return tuple(int(ch) for ch in o)
+                if isinstance(o, tuple):
+                    return tuple(int(x) for x in o)
+                return (int(o) - off,)
+            gotk = {key(o): v for o, v in got.items() if gen.lin_of(v, d.get_base()) > 1e-12}
+            r.mismatch = self.table_agrees(gotk, want, d.get_base(), False)
 
     def run_stats(self, case, drv, r):
         dit = import_dit()
